@@ -58,7 +58,7 @@ mod harness {
     }
     #[kani::proof]
     #[kani::unwind(24)]
-    fn inbound_deadline_is_min() { // @KOBL [C11] @BOUNDED inbound: for every configured default (any Option<Duration>) and each header text of the table, the armed timer is min(default, header) with unparsable == absent, and the service is called exactly once (header texts: 12 representatives)
+    fn inbound_deadline_is_min() { // @KOBL [C11,C06] @BOUNDED inbound: for every configured default (any Option<Duration>) and each header text of the table, the armed timer is min(default, header) with unparsable == absent, and the service is called exactly once (header texts: 12 representatives)
         let i: usize = kani::any(); kani::assume(i < 12);
         let default = any_default();
         let mut svc = inbound::Timeout::new(Counting { calls: 0 }, default);
@@ -68,7 +68,7 @@ mod harness {
     }
     #[kani::proof]
     #[kani::unwind(24)]
-    fn outbound_deadline_is_min() { // @KOBL [C11] @BOUNDED outbound: same statement for the calling side (header texts: 12 representatives)
+    fn outbound_deadline_is_min() { // @KOBL [C11,C06] @BOUNDED outbound: same statement for the calling side (header texts: 12 representatives)
         let i: usize = kani::any(); kani::assume(i < 12);
         let default = any_default();
         let mut svc = outbound::Timeout::new(Counting { calls: 0 }, default);
